@@ -143,11 +143,9 @@ def itervalues (env : Env) : Val → R (List Val)
       match memberValue env c i with
       | some (.str s) => .ok (chars s)
       | _ => .error .unsupported
-    else .error .unsupported   -- fields from the signature of `Enum.__call__`: ('value', …) then AttributeError
+    else .ok []          -- `vars(member)` holds private names only
   | .opaque _ => .ok []  -- `vars(obj)` of an attribute-less instance
-  | .frac n d => .ok [.int n, .int d]     -- the constructor's parameters are attributes
-  | .float _ | .dec _ | .path _ => .error .attribute   -- constructor parameter names are not attributes
-  | .none | .bool _ | .int _ | .pattern _
+  | .none | .bool _ | .int _ | .float _ | .dec _ | .frac _ _ | .path _ | .pattern _
   | .date _ | .datetime _ _ | .time _ _ | .timedelta _ => .error .type   -- `vars(x)` raises TypeError
   | .text _ _ | .uuid _ => .error .unsupported
 
@@ -227,11 +225,9 @@ def iteritems (env : Env) : Val → R (List Item)
       match memberValue env c i with
       | some (.str s) => .ok ((enumerateFrom 0 (chars s)).map .ok)
       | _ => .error .unsupported
-    else .error .unsupported
+    else .ok []
   | .opaque _ => .ok []
-  | .frac n d => .ok [.ok (.str "numerator".toList, .int n), .ok (.str "denominator".toList, .int d)]
-  | .float _ | .dec _ | .path _ => .error .attribute
-  | .none | .bool _ | .int _ | .pattern _
+  | .none | .bool _ | .int _ | .float _ | .dec _ | .frac _ _ | .path _ | .pattern _
   | .date _ | .datetime _ _ | .time _ _ | .timedelta _ => .error .type
   | .text _ _ | .uuid _ => .error .unsupported
 
